@@ -68,6 +68,8 @@ func c12run(c *Ctx, withTree bool) {
 	}
 	// R5: exact envelopes (shared with C11)
 	c11model(c, map[string]string{"envelopes": "C12.R5", "parent-links": "C12.R5", "no-panic": "C12.R5"})
+	premiseBounds(c, "C12.R7", "distances to stored objects are distances to the boxes their Bounds() returns")
+	c.Floor("C12.R7", 16)
 	c.Floor("C12.R4", 1)
 	c.Floor("C12.R5", 3)
 	c.Floor("C12.R1", 4)
